@@ -121,7 +121,7 @@ func Observe(st *state.StateDB) string {
 		fmt.Fprintf(&b, "A%d{ex=%v bal=%v n=%d code=%x s=%x,%x sui=%v dbal=%v dl=%x}", i, st.Exist(a), st.GetBalance(a), st.GetNonce(a),
 			st.GetCode(a), st.GetState(a, Slots[0]).Big(), st.GetState(a, Slots[1]).Big(), st.HasSuicided(a), st.VerifDelegationBalance(a), shortAddrs(st.VerifDelegations(a)))
 	}
-	fmt.Fprintf(&b, " logs=%d/%d refund=%d", len(st.Logs()), st.VerifLogSize(), st.GetRefund())
+	fmt.Fprintf(&b, " logs=%d/%d/pre%d refund=%d", len(st.Logs()), st.VerifLogSize(), len(st.Preimages()), st.GetRefund())
 	for i, a := range ValAddr {
 		fmt.Fprintf(&b, " V%d%s", i, ObserveVal(st.GetValidatorByMainAddr(a)))
 	}
